@@ -65,7 +65,12 @@ int main(int argc, char** argv) {
                     unsetenv("BLOCH_OFFLINE");
                     unsetenv("BLOCH_NO_UPDATE_CHECK");
                     skip = a[2] != "0";
-                    if (skip) setenv(a[2] == "1" ? "BLOCH_NO_UPDATE_CHECK" : a[2] == "2" ? "CI" : "BLOCH_OFFLINE", "1", 1);
+                    // 1-3: the variable set to "1"; 4-6: the same variables set to the empty string (set is set)
+                    if (skip) {
+                        int code = std::stoi(a[2]);
+                        const char* var = (code - 1) % 3 == 0 ? "BLOCH_NO_UPDATE_CHECK" : (code - 1) % 3 == 1 ? "CI" : "BLOCH_OFFLINE";
+                        setenv(var, code <= 3 ? "1" : "", 1);
+                    }
                     auto path = cacheFilePath();
                     std::filesystem::create_directories(path.parent_path());
                     std::filesystem::remove(path);
